@@ -1,0 +1,13 @@
+//go:build verif
+
+// Contracts for the deductive verifier in /verif (comment-only file; see /verif/DESIGN.md).
+package saslhandshake
+
+//@ property C04 C18
+
+// Wire layout per version, from the Kafka protocol definition of this API (field order, types and the versions each field
+// exists in); the encoders and decoders are compiled from the struct tags, so the tags are checked against it.
+//@ wire Request
+//@   layout v0..v1 Mechanism string
+//@ wire Response
+//@   layout v0..v1 ErrorCode int16, Mechanisms []string
